@@ -28,13 +28,13 @@ theorem gen_isNewMaster (cand : U128) (exist : Option U128) :
       have : U128.le e cand = false := by
         rw [Bool.eq_false_iff]; intro hc
         have := (C05.u128_le_iff e cand).mp hc; omega
-      simp [h, this, hne]
+      simp [h, this, hne, Ne.symm hne, equals_iff]
     · subst h'
       have : U128.le cand cand = true := (C05.u128_le_iff _ _).mpr (Nat.le_refl _)
-      simp [h, this]
+      simp [h, this, equals_iff]
     · have hne : ¬ (e = cand) := by intro x; subst x; omega
       have : U128.le e cand = true := (C05.u128_le_iff _ _).mpr (Nat.le_of_lt h')
-      simp [h, this, hne]
+      simp [h, this, hne, Ne.symm hne, equals_iff]
 
 theorem gen_isNewMaster_translated : Gen.isNewMaster_problem = none := rfl
 
